@@ -32,6 +32,14 @@
 (*                         prover reported the argument valid (the verdict *)
 (*                         recorded by the harness): one verdict in all    *)
 (*                         schedules, and it is the code's (C09, C01)      *)
+(*   SoundWhenClosed       a terminal state with every branch closed (the  *)
+(*                         schedule says "valid") has NO counter-model     *)
+(*                         among the structures of the logic over the      *)
+(*                         argument's vocabulary with one and with two     *)
+(*                         domain elements beyond the trunk's constants    *)
+(*                         (Models!CounterModel, the oracle of C01): no    *)
+(*                         schedule of the extracted rules proves what the *)
+(*                         semantics refutes at that scope (C01)           *)
 (*   Termination           <>Terminal                                      *)
 (***************************************************************************)
 EXTENDS Logics, SequencesExt, FiniteSetsExt, Json, IOUtils
@@ -200,6 +208,12 @@ ModelOf(nodes) ==
       val |-> [j \in 1..Len(lits) |-> <<0, lits[j], ValueOf(nodes, lits[j])>>]]
 ModelSatisfiesBranch ==
   Terminal => \A b \in Done : LET M == ModelOf(b.nodes) IN \A n \in b.nodes : SatN(L, M, [s |-> n.s, d |-> n.d, w |-> 0])
+
+(* ---- soundness of an all-closed terminal state at small scope ---- *)
+MD == INSTANCE Models
+Dom(k) == ConstsOf(TrunkSet(arg)) \cup {<<"c", j, 0>> : j \in 0..(k - 1)}
+SoundWhenClosed ==
+  (Terminal /\ \A b \in br : b.closed) => \A k \in 1..2 : MD!CounterModel(L, arg, {0}, Dom(k)) = <<>>
 
 (* ---- the verdict ---- *)
 VerdictAsRecorded ==
